@@ -367,3 +367,20 @@ Definition AlreadyPreprocessed : list bytes := [ bs "i"; bs "ii"; bs "mi"; bs "m
 Theorem preprocessed_suffixes_have_no_language :
   forallb (fun e => match assoc e ext_lang_table with None => true | Some _ => false end) AlreadyPreprocessed = true.
 Proof. vm_compute. reflexivity. Qed.
+
+(* ------------------------------------------------------------------ the environment of the preprocessor run and of the compile *)
+
+(* both commands are built with `.env_clear().envs(client variables)` (transcribed by the translator): whatever
+   environment the server was started in, the compiler sees exactly the client's *)
+Theorem commands_run_in_client_env :
+  forall server client : envmap,
+    child_env preprocess_env_cleared server client = client /\
+    child_env compile_env_cleared server client = client.
+Proof. intros server client. split; reflexivity. Qed.
+
+(* ... and why that matters: without the clearing, a variable of the server's environment that the client does not set
+   reaches the compiler *)
+Example uncleared_env_leaks :
+  child_env false [(bs "SOURCE_DATE_EPOCH", bs "86400")] [(bs "PATH", bs "/usr/bin")]
+  = [(bs "PATH", bs "/usr/bin"); (bs "SOURCE_DATE_EPOCH", bs "86400")].
+Proof. vm_compute. reflexivity. Qed.
